@@ -186,7 +186,8 @@ def _task_sweep(args):
         pilot["fault_sites"] = counters
         out.append(pilot)
         rng = random.Random(f"sweep/{seed}")
-        plans = prof_faults.sweep_plans(counters, quick, rng)
+        plans = prof_faults.sweep_plans(counters, quick, rng, hot={k: list(v) for k, v in w.faults.hot.items()})
+        pilot["hot_sites"] = {k: len(v) for k, v in w.faults.hot.items()}
         pilot["sites_run"] = len(plans)
         for i, site in enumerate(plans):
             behaviours = ["never_break", "break_stale"]
